@@ -40,6 +40,24 @@ func gen(seed, idx int64) set {
 		s.Names = append(s.Names, m.Name+".yang")
 		s.Texts = append(s.Texts, schema.Print(m))
 	}
+	// One set in five ends in a text with a syntax error: the load stops there, and the
+	// error - with its position - is part of what a caller obtains, concurrently or not.
+	if idx%5 == 3 {
+		last := s.Texts[len(s.Texts)-1]
+		r := g.R
+		switch r.Intn(4) {
+		case 0:
+			last += strings.Repeat(" ", r.Intn(40)) + "}\n"
+		case 1:
+			last += "leaf \"never closed\n"
+		case 2:
+			k := strings.LastIndex(last, ";")
+			last = last[:k] + " 'q' zz;" + last[k+1:]
+		default:
+			last += "/* never closed"
+		}
+		s.Texts[len(s.Texts)-1] = last
+	}
 	return s
 }
 
